@@ -396,7 +396,7 @@ func ruleKWTable(p *Prog, r *Result) {
 		case *ssa.Phi:
 			return true
 		case *ssa.Call:
-			if p.calleeName(&y.Call) != "strings.ToLower" {
+			if p.calleeName(&y.Call) != "strings.ToLower" && !isLowerFolder(p, y.Call.StaticCallee()) {
 				lower = false
 			}
 			return false
@@ -848,6 +848,37 @@ func ruleOp2Table(p *Prog, r *Result) {
 					missing = append(missing, fmt.Sprintf("%q", rune(b)))
 				}
 			}
+			// ... and folds its case without touching bytes that are not letters: strings.ToLower / ToUpper go through
+			// strings.Map, which rewrites every byte that is not valid UTF-8 as U+FFFD (three bytes that are not in
+			// the query, and two different words become one name), so they are applied only to valid UTF-8
+			foldBad := ""
+			for f := range p.Reach([]*ssa.Function{bt}, nil) {
+				if !p.InPkg(f) {
+					continue
+				}
+				allInstrs(f, func(in ssa.Instruction) {
+					c, ok := in.(*ssa.Call)
+					if !ok {
+						return
+					}
+					n := p.calleeName(&c.Call)
+					if n != "strings.ToLower" && n != "strings.ToUpper" && n != "strings.Map" && n != "strings.ToTitle" {
+						return
+					}
+					guarded := false
+					for _, a := range dominatingAtoms(in.Block()) {
+						if vc, ok := a.X.(*ssa.Call); ok && p.calleeName(&vc.Call) == "unicode/utf8.ValidString" {
+							if bv, isB := constBool(a.Y); isB && ((a.Op == token.EQL) == bv) {
+								guarded = true
+							}
+						}
+					}
+					if !guarded {
+						foldBad = n + " at " + p.InstrPos(in)
+					}
+				})
+			}
+			r.add(foldBad == "", "fold-valid", p.Pos(fn.Pos()), firstNonEmpty(map[bool]string{true: "the word is case-folded by " + foldBad + " without a test that it is valid UTF-8: an invalid byte becomes U+FFFD"}[foldBad != ""], "a word is case-folded by the strings package only when it is valid UTF-8"))
 			r.add(len(trims) == 0 && len(missing) == 0, "blanks", p.Pos(fn.Pos()), fmt.Sprintf("the six ASCII blanks separate words in the scanner (not separators: %v) and the word classifier does not trim the word it is given (trimming calls: %v): a character removed from a word's text leaves the word's recorded offset on that character", missing, trims))
 		}
 		var cs []int64
@@ -1315,4 +1346,40 @@ func prevCharsInto(b *ssa.BasicBlock, prev ssa.Value) (chars []int64, closed boo
 	rec(b, 0)
 	sort.Slice(chars, func(i, j int) bool { return chars[i] < chars[j] })
 	return
+}
+
+// isLowerFolder: a package function string -> string whose every result is strings.ToLower of its parameter or a
+// text it builds itself while folding runes with unicode.ToLower (a fold that leaves invalid bytes alone).
+func isLowerFolder(p *Prog, g *ssa.Function) bool {
+	if g == nil || !p.InPkg(g) || len(g.Params) != 1 || g.Signature.Results().Len() != 1 || len(g.Blocks) == 0 {
+		return false
+	}
+	folds := false
+	allInstrs(g, func(in ssa.Instruction) {
+		if c, ok := in.(*ssa.Call); ok && p.calleeName(&c.Call) == "unicode.ToLower" {
+			folds = true
+		}
+	})
+	ok := true
+	n := 0
+	for _, b := range g.Blocks {
+		ret := retOf(b)
+		if ret == nil {
+			continue
+		}
+		n++
+		c, isC := retVal(ret, 0).(*ssa.Call)
+		if !isC {
+			ok = false
+			continue
+		}
+		switch nm := p.calleeName(&c.Call); {
+		case nm == "strings.ToLower" && len(c.Call.Args) == 1 && c.Call.Args[0] == ssa.Value(g.Params[0]):
+		case nm == "(*strings.Builder).String" && folds:
+		case nm == "string" && folds:
+		default:
+			ok = false
+		}
+	}
+	return ok && n > 0
 }
